@@ -662,27 +662,7 @@ func c15Conn(in *c15In) c15Out {
 func c15ConnOnce(in *c15In) (c15Out, time.Duration) {
 	t0 := time.Now()
 	var slept time.Duration
-	q, p, lens := c15Build(in.Frames)
-	if in.Raw != nil {
-		if s, ok := in.Raw["q"]; ok {
-			q = c15Unhex(s)
-		}
-		if s, ok := in.Raw["p"]; ok {
-			p = c15Unhex(s)
-		}
-	}
-	for _, m := range in.Mut {
-		if len(m) < 3 {
-			continue
-		}
-		b := q
-		if c15Str(m[0]) == "p" {
-			b = p
-		}
-		if len(b) > 0 {
-			b[c15Num(m[1])%len(b)] ^= byte(c15Num(m[2]))
-		}
-	}
+	q, p, lens := c15Bytes(in)
 	out := c15Out{Q: gen.Hex(q), P: gen.Hex(p), Lens: lens, Transparent: true,
 		Units: map[string][]c15Unit{"q": c15Units(q, true), "p": c15Units(p, false)}}
 	rbytes, wbytes := p, q
@@ -812,6 +792,37 @@ func c15ConnOnce(in *c15In) (c15Out, time.Duration) {
 	gen.Recover(func() { conn.Close() })
 	return out, busy
 }
+
+// c15Bytes: the byte strings of the two directions of an input (frames built by the real Framer,
+// replaced by raw bytes / mutated where the input says so).
+func c15Bytes(in *c15In) (q, p []byte, lens []int) {
+	q, p, lens = c15Build(in.Frames)
+	if in.Raw != nil {
+		if s, ok := in.Raw["q"]; ok {
+			q = c15Unhex(s)
+		}
+		if s, ok := in.Raw["p"]; ok {
+			p = c15Unhex(s)
+		}
+	}
+	for _, m := range in.Mut {
+		if len(m) < 3 {
+			continue
+		}
+		b := q
+		if c15Str(m[0]) == "p" {
+			b = p
+		}
+		if len(b) > 0 {
+			b[c15Num(m[1])%len(b)] ^= byte(c15Num(m[2]))
+		}
+	}
+	return q, p, lens
+}
+
+// c15AllocLimit: inputs on which the tracer would pre-allocate more than this for one message are
+// not run (counted in the evidence): the check has to fit a shared machine.
+const c15AllocLimit = 64 << 20
 
 // c15Array is the ONE backing array a reusing caller owns for a direction: allocated once, large
 // enough for the largest call of the script (as a bufio buffer is sized once).
@@ -1172,10 +1183,14 @@ type c15Gen struct {
 }
 
 func (g *c15Gen) emit(in c15In, class string) {
+	g.n++
+	if c15MaxEndStreamAlloc(&in) > c15AllocLimit {
+		g.c.E.Count("skipped:declares-end-stream-message-above-64MiB")
+		return
+	}
 	g.emit1(in, class)
 	// ... and the same script with a caller that reuses ONE array per direction for all its
 	// Reads / Writes (bufio-style); fuzzed inputs: every other one
-	g.n++
 	if strings.HasPrefix(class, "random-bytes") || strings.HasPrefix(class, "illegal") || strings.HasPrefix(class, "mutated") || strings.HasPrefix(class, "scrambled") {
 		if g.n%2 == 0 {
 			return
